@@ -40,6 +40,10 @@ def gen_tree(r, n):
 def gen_prog(r, mode):
     n = r.choice([1, 2, 3, 3, 4, 4, 5, 6, 7, 8, 9])
     prog = gen_tree(r, n)
+    if r.random() < 0.06:
+        # a wide tree: all children of one parent start at once, however many there are
+        n = r.choice([10, 11, 12])
+        prog = [{"parent": None}] + [{"parent": 0} for _ in range(n - 1)]
     keys = []          # keys somebody publishes
     for i, c in enumerate(prog):
         c["has_prepare"] = r.random() < 0.7
@@ -143,7 +147,7 @@ def gen_prog(r, mode):
             pos = 0
             while pos < len(sg) and sg[pos][0] in ("Noop", "AddTd", "GetOpt") and r.random() < 0.5:
                 pos += 1
-            sg.insert(pos, ["Fail", r.choice([7, 7, 8])])
+            sg.insert(pos, ["Fail", r.choice([7, 7, 8, 9])])
     if mode == "burst":
         # many non-matching publications without a checkpoint while somebody waits (F7)
         c = prog[0]
